@@ -19,15 +19,33 @@ def mps_config(ctx) -> None:
     paths = [p for p in it.run(f) if p.status == "return"]
     ctx.require(paths, "MPSConfig.__init__: no returning path")
     ctx.count("paths", len(paths))
-    prec = ("param", f.qualname, "precision")
-    extra = ("param", f.qualname, "extra_krylov_tolerance")
+    # The safeguards are stated about the *constructed configuration*: the effective options, which Pulser keeps in
+    # _backend_options and serves through attribute access.  A keyword argument of __init__ is not the effective option
+    # (the still-accepted `backend_options={...}` dictionary overrides it), so a safeguard evaluated on the local
+    # argument does not hold for every constructed configuration.
+    prec = ("attr", SELF, "precision")
+    extra = ("attr", SELF, "extra_krylov_tolerance")
+
+    def eff(t):
+        """self._backend_options["x"] and self.x are the same effective option"""
+        t = strip_typed(t)
+        if not isinstance(t, tuple):
+            return t
+        if t[0] == "sub" and strip_typed(t[1]) == ("attr", SELF, "_backend_options") and strip_typed(t[2])[0] == "const":
+            return ("attr", SELF, strip_typed(t[2])[1])
+        return tuple(eff(x) if isinstance(x, tuple) else x for x in t)
+
+    local_args = []
     seen_low = seen_high = 0
     missing_store = 0
     for p in paths:
         # (a) floor of the Krylov tolerance
         floor_cond = None
         for c, t in p.cond_log:
-            c0 = strip_typed(c)
+            c0 = eff(c)
+            if c0[0] == "cmp" and c0[1] in ("<", "<=", ">", ">=") and any(
+                    x == ("param", f.qualname, n) for x in walk(c0) for n in ("precision", "extra_krylov_tolerance")):
+                local_args.append(show(c0)[:70])
             if c0[0] == "cmp" and c0[1] in ("<", "<=", ">", ">=") and \
                     (same(c0[2], ("bin", "Mult", prec, extra)) or same(c0[3], ("bin", "Mult", prec, extra))):
                 a, b, op = c0[2], c0[3], c0[1]
@@ -39,7 +57,9 @@ def mps_config(ctx) -> None:
         if not stores:
             missing_store += 1
             continue
-        v = stores[-1].value
+        v = eff(stores[-1].value)
+        if floor_cond is None and local_args:
+            break
         if floor_cond is None:
             raise AnalysisError("CONFIG: the comparison of precision*extra_krylov_tolerance with the minimum was not "
                                 "found on a path of MPSConfig.__init__")
@@ -61,6 +81,13 @@ def mps_config(ctx) -> None:
             ctx.ob("CONFIG-krylov-floor", "above the floor", stores[-1].loc(), ok,
                    "otherwise the requested extra_krylov_tolerance is kept" if ok else
                    f"above the floor the stored extra_krylov_tolerance is {show(v)[:60]}", entry=f.qualname)
+    ctx.ob("CONFIG-krylov-floor", "tested on the effective options", f.loc(), not local_args,
+           "the floor compares self.precision · self.extra_krylov_tolerance (the options the solver reads)" if not local_args
+           else f"the floor is tested on __init__'s keyword arguments ({local_args[0]}), not on the effective options: "
+                f"values given through backend_options={{...}} override the arguments and escape the floor "
+                f"(MPSConfig(backend_options={{'precision': 1e-14}}) runs with an effective Krylov tolerance of 1e-17)")
+    if local_args:
+        return
     ctx.ob("CONFIG-krylov-floor", "always stored", f.loc(), missing_store == 0 and seen_low >= 1 and seen_high >= 1,
            "every constructed config stores the adjusted extra_krylov_tolerance" if missing_store == 0 and seen_low and seen_high
            else f"{missing_store} path(s) of MPSConfig.__init__ do not store the adjusted tolerance "
@@ -68,16 +95,23 @@ def mps_config(ctx) -> None:
     # (b) autosave_dt rejection, unconditional
     bad = 0
     form_ok = True
+    local_dt = False
     for p in paths:
         a = [e for e in p.events if e.kind == "assert" and "autosave_dt" in show(e.value)]
         r = [c for c, t in p.cond_log if "autosave_dt" in show(c)]
         if not a and not r:
             bad += 1
             continue
-        c = strip_typed(a[0].value) if a else strip_typed(r[0])
+        c = eff(a[0].value) if a else eff(r[0])
+        if any(x == ("param", f.qualname, "autosave_dt") for x in walk(c)):
+            local_dt = True
         if not (c[0] == "cmp" and c[1] == ">" and show(c[2]).endswith("autosave_dt") and is_const(c[3], 10)):
             if not (c[0] == "cmp" and c[1] == "<" and is_const(c[2], 10) and show(c[3]).endswith("autosave_dt")):
                 form_ok = False
+    ctx.ob("CONFIG-autosave", "tested on the effective option", f.loc(), not local_dt,
+           "the test reads self.autosave_dt (the interval the backend uses)" if not local_dt else
+           "the autosave test reads __init__'s keyword argument, not the effective option: an interval given through "
+           "backend_options={'autosave_dt': 5} overrides the argument and is accepted")
     ctx.ob("CONFIG-autosave", "autosave_dt > 10 enforced", f.loc(), bad == 0 and form_ok,
            "every constructed config has passed `autosave_dt > 10`" if bad == 0 and form_ok else
            (f"{bad} path(s) construct a config without the autosave_dt test" if bad else
@@ -187,6 +221,17 @@ def argmin(ctx) -> None:
     ctx.ob("ARGMIN", "identity is a candidate", f.loc(), ok_id,
            "the candidate start permutations begin with the identity arange(L)" if ok_id else
            "the identity permutation is not among the start permutations: the result can be worse than the input order")
+    # the matrix the candidates are optimised for is |M| itself: any data-dependent rescaling (M / M.max(), M / M.sum())
+    # is undefined for the all-zero or all-non-positive matrices the property quantifies over
+    if ok_elem:
+        m = strip_typed(el[2][0])
+        inp = ("param", f.qualname, f.params[0])
+        ok_abs = (m[0] == "call" and m[1] in ("torch.abs", "abs", "torch.absolute") and [strip_typed(a) for a in m[2]] == [inp]) or \
+                 (m[0] == "mcall" and m[2] in ("abs", "absolute") and strip_typed(m[1]) == inp and not m[3])
+        ctx.ob("ARGMIN", "optimised matrix is |M|", f.loc(), ok_abs,
+               "the candidates are optimised for abs(input_matrix), unscaled" if ok_abs else
+               f"the candidates are optimised for {show(m)[:70]}, not abs(input_matrix): a data-dependent rescaling is "
+               f"0/0 or sign-flipping for zero or non-positive matrices, and the search then fails or ranks by another weight")
     ctx.ob("ARGMIN", "candidates", f.loc(), ok_elem,
            "each candidate is minimize_bandwidth_impl(|M|, start permutation)" if ok_elem else
            "the candidate generator does not apply minimize_bandwidth_impl to every start permutation")
